@@ -530,3 +530,166 @@ def rule_readers_pure(ctx):
         ctx.ob('C04.readers', f, 'read accessor does not store into the container', not stores,
                'with the default instantiate=True a read of an absent member stores a placeholder (`%s`); read through a DEFAULT '
                'constructed member this changes what the canonical encoders emit' % norm(stores[0]) if stores else 'pure', node=stores[0] if stores else None)
+
+
+# ------------------------------------------------------------------- W.int
+
+def _eval_size_function(f, env):
+    """Evaluate the straight-line octet-count computation of compat.integer.to_bytes for one input:
+    assignments / augmented assignments of pure integer expressions, `if` with a pure test, and the final
+    `value.to_bytes(<count>, ...)`.  Returns the count expression's value."""
+    env = dict(env)
+
+    def run(stmts):
+        for s in stmts:
+            if isinstance(s, ast.Expr) and isinstance(s.value, ast.Constant):
+                continue
+            if isinstance(s, ast.Assign) and len(s.targets) == 1 and isinstance(s.targets[0], ast.Name):
+                env[s.targets[0].id] = intexpr.ev(s.value, env)
+            elif isinstance(s, ast.AugAssign) and isinstance(s.target, ast.Name):
+                cur = env[s.target.id]
+                v = intexpr.ev(s.value, env)
+                if isinstance(s.op, ast.Add):
+                    env[s.target.id] = cur + v
+                elif isinstance(s.op, ast.Sub):
+                    env[s.target.id] = cur - v
+                else:
+                    raise intexpr.NotPure('augmented operator')
+            elif isinstance(s, ast.If):
+                r = run(s.body if intexpr.ev(s.test, env) else s.orelse)
+                if r is not None:
+                    return r
+            elif isinstance(s, ast.Return):
+                c = s.value
+                if isinstance(c, ast.Call) and isinstance(c.func, ast.Attribute) and c.func.attr == 'to_bytes' and c.args:
+                    return intexpr.ev(c.args[0], env)
+                raise intexpr.NotPure('return shape')
+            else:
+                raise intexpr.NotPure('statement %s' % type(s).__name__)
+        return None
+    return run(f.node.body)
+
+
+def rule_integer_octets(ctx):
+    """W.int: the number of content octets chosen for an INTEGER is the minimal two's complement size
+    (X.690 8.3.2: the first nine bits are not all ones / all zeros), for every value in [-2**17, 2**17]."""
+    f = ctx.func('compat.integer.to_bytes')
+
+    def ref(v):
+        return (v if v >= 0 else ~v).bit_length() // 8 + 1
+    bad = None
+    try:
+        for v in list(range(-70000, 70001)) + [2 ** 31, -2 ** 31, 2 ** 31 - 1, -2 ** 31 - 1, -2 ** 63, 2 ** 63]:
+            got = _eval_size_function(f, {'value': v, 'signed': True, 'length': 0})
+            if got != ref(v):
+                bad = (v, got, ref(v))
+                break
+    except intexpr.NotPure as x:
+        raise AnalysisError('octet-count computation of %s is not a pure integer computation: %s' % (f.short, x))
+    ctx.ob('W.int', f, 'signed values get the minimal number of two\'s complement octets', bad is None,
+           'value %d is given %d content octets, the minimal two\'s complement form has %d (X.690 8.3.2): DER output is not '
+           'the distinguished encoding' % bad if bad else 'checked for -70000..70000 and the 2**31 / 2**63 boundaries', node=f.node)
+    # unsigned use by BIT STRING: ceil(max(bit_length, length) / 8)
+    bad = None
+    for L in range(0, 41):
+        for v in (0, 1, 2, 127, 128, 255, 256, 65535):
+            got = _eval_size_function(f, {'value': v, 'signed': False, 'length': L})
+            want = (max(v.bit_length(), L) + 7) // 8
+            if got != want:
+                bad = (v, L, got, want)
+                break
+    ctx.ob('W.int', f, 'unsigned values padded to the requested bit length', bad is None,
+           'value %d with length %d bits -> %d octets, expected %d' % bad if bad else 'checked for lengths 0..40', node=f.node)
+    # the reader is the exact inverse: big-endian two's complement
+    g = ctx.func('compat.integer.from_bytes')
+    ok = any(isinstance(r, ast.Return) and norm(r.value) == "int.from_bytes(bytes(octets), 'big', signed=signed)" for r in walk_own(g.node))
+    ctx.ob('W.int', g, 'reader is big-endian two\'s complement with the caller\'s signedness', ok, '')
+    enc = ctx.func('codec.ber.encoder.IntegerEncoder.encodeValue')
+    ok = any(isinstance(r, ast.Return) and 'to_bytes(int(value), signed=True)' in norm(r.value) for r in walk_own(enc.node))
+    ctx.ob('W.int', enc, 'INTEGER contents written signed', ok, '')
+    dec = ctx.func('codec.ber.decoder.IntegerPayloadDecoder.valueDecoder')
+    ok = any(isinstance(n, ast.Call) and norm(n) .endswith('signed=True)') and call_name(n) == 'from_bytes' for n in walk_own(dec.node))
+    ctx.ob('W.int', dec, 'INTEGER contents read signed', ok, '')
+
+
+# ------------------------------------------------------------------- C14.denote
+
+def rule_constraint_denotation(ctx):
+    """C14.denote: the refusal guards of the range/size constraints are the complement of the closed interval
+    [start, stop]; set constraints combine their members as intersection / union / exclusion."""
+    from sa.rules.wire import _subst
+    C = 'type.constraint.'
+    for cname, var_expr in (('ValueRangeConstraint', None), ('ValueSizeConstraint', 'len')):
+        f = ctx.func(C + cname + '._testValue')
+        ifs = [n for n in walk_own(f.node) if isinstance(n, ast.If) and raises_in(n.body)]
+        if len(ifs) != 1:
+            raise AnalysisError('refusal guard of %s not found' % cname)
+        t = ifs[0].test
+        par = f.params()[1]
+        var = par
+        if var_expr == 'len':
+            # valueSize = len(value)
+            defs = [n for n in walk_own(f.node) if isinstance(n, ast.Assign) and isinstance(n.value, ast.Call) and
+                    call_name(n.value) == 'len' and norm(n.value.args[0]) == par]
+            if len(defs) != 1:
+                raise AnalysisError('size variable of %s not found' % cname)
+            var = defs[0].targets[0].id
+        tt = _subst(t, {'self.start': '__a', 'self.stop': '__b'})
+        bad = None
+        try:
+            for a, b in ((2, 5), (0, 0), (-3, 3), (1, 1)):
+                refused = set(v for v in range(a - 3, b + 4) if intexpr.ev(tt, {var: v, '__a': a, '__b': b}))
+                want = set(v for v in range(a - 3, b + 4) if v < a or v > b)
+                if refused != want:
+                    bad = (a, b, sorted(refused), sorted(want))
+                    break
+        except intexpr.NotPure as x:
+            raise AnalysisError('refusal guard `%s` of %s is not a pure comparison: %s' % (norm(t), cname, x))
+        ctx.ob('C14.denote', f, 'refuses exactly the values outside [start, stop]', bad is None,
+               'for [%d, %d] the guard refuses %s, the denotation refuses %s' % bad if bad else 'guard `%s`' % norm(t), node=ifs[0])
+    # start <= stop enforced
+    f = ctx.func(C + 'ValueRangeConstraint._setValues')
+    ok = any(isinstance(n, ast.If) and norm(n.test) == 'self.start > self.stop' and raises_in(n.body) for n in walk_own(f.node))
+    ctx.ob('C14.denote', f, 'empty ranges (start > stop) refused at construction', ok, '')
+    # single value / permitted alphabet
+    f = ctx.func(C + 'SingleValueConstraint._testValue')
+    ok = any(isinstance(n, ast.If) and norm(n.test) == '%s not in self._set' % f.params()[1] and raises_in(n.body) for n in walk_own(f.node))
+    ctx.ob('C14.denote', f, 'refuses exactly the values not in the set', ok, '')
+    f = ctx.func(C + 'PermittedAlphabetConstraint._testValue')
+    ok = any(isinstance(n, ast.If) and norm(n.test) == 'not self._set.issuperset(%s)' % f.params()[1] and raises_in(n.body) for n in walk_own(f.node))
+    ctx.ob('C14.denote', f, 'refuses exactly the values with a character outside the alphabet', ok, '')
+    for cname in ('SingleValueConstraint', 'PermittedAlphabetConstraint'):
+        g = ctx.func(C + cname + '._setValues')
+        ok = 'self._set = set(values)' in norm(g.node) and 'self._values = values' in norm(g.node)
+        ctx.ob('C14.denote', g, 'member set built from all the given values', ok, '')
+    # intersection: every member must accept (no handler around the member call)
+    f = ctx.func(C + 'ConstraintsIntersection._testValue')
+    loops = [n for n in walk_own(f.node) if isinstance(n, ast.For) and norm(n.iter) == 'self._values']
+    ok = len(loops) == 1 and len(loops[0].body) == 1 and isinstance(loops[0].body[0], ast.Expr) and \
+        isinstance(loops[0].body[0].value, ast.Call) and norm(loops[0].body[0].value.func) == norm(loops[0].target) and \
+        not any(isinstance(n, (ast.Try, ast.Break, ast.Return, ast.Continue)) for n in walk_own(f.node))
+    ctx.ob('C14.denote', f, 'intersection: every member constraint is applied, failures propagate', ok, '')
+    # union: the first accepting member accepts; if none accepts, refuse
+    f = ctx.func(C + 'ConstraintsUnion._testValue')
+    cfg = ctx.cfg(f)
+    trys = [n for n in walk_own(f.node) if isinstance(n, ast.Try)]
+    ok = len(trys) == 1 and any(isinstance(s, ast.Return) for s in trys[0].orelse) and \
+        all(h.type is not None and norm(h.type).endswith('ValueConstraintError') and all(isinstance(b, (ast.Pass, ast.Continue)) for b in h.body)
+            for h in trys[0].handlers) and \
+        any(isinstance(s, ast.Raise) for s in f.node.body) and isinstance(trys[0].parent, ast.For) and norm(trys[0].parent.iter) == 'self._values'
+    ctx.ob('C14.denote', f, 'union: accepted iff some member accepts', ok, '')
+    # exclusion: refuse iff some member accepts
+    f = ctx.func(C + 'ConstraintsExclusion._testValue')
+    trys = [n for n in walk_own(f.node) if isinstance(n, ast.Try)]
+    ok = False
+    if len(trys) == 1 and isinstance(trys[0].parent, ast.For):
+        lp = trys[0].parent
+        after = lp.body[lp.body.index(trys[0]) + 1:]
+        ok = all(h.type is not None and norm(h.type).endswith('ValueConstraintError') and any(isinstance(b, ast.Continue) for b in h.body)
+                 for h in trys[0].handlers) and any(isinstance(s, ast.Raise) for s in after) and not trys[0].orelse
+    ctx.ob('C14.denote', f, 'exclusion: refused iff some member accepts', ok, '')
+    # the evaluation entry point: an empty constraint accepts everything, failures are re-raised as constraint errors
+    f = ctx.func(C + 'AbstractConstraint.__call__')
+    src = norm(f.node)
+    ok = 'if not self._values: return' in src.replace('\n', ' ') and 'self._testValue(value, idx)' in src
+    ctx.ob('C14.denote', f, 'empty constraint accepts; otherwise _testValue decides', ok, '')
